@@ -569,6 +569,21 @@ def run_C08(ctx):
                     for k in range(0, 4):
                         fw.append(gen.adapter_line(a, b, script, st, fail=k))
                     ctx.count("adapter:replace-call-forwarding")
+    # replace events with an empty side (hand-built Replace ops replayed with apply_to_hook, direct replace calls):
+    # the default body still makes both calls; "norep" is a hook without its own replace called directly
+    for a, b in gen.all_pairs(2, 2):
+        for ol in range(0, len(a) + 1):
+            for nl in range(0, len(b) + 1):
+                if ol and nl and (ol, nl) != (len(a), len(b)):
+                    continue
+                pre = [("E", 0, 0, 0)] if (len(a) + len(b)) % 2 else []
+                script = pre + [("R", 0, ol, 0, nl), ("F",)]
+                # (forwarding stacks only: these scripts are single events, not complete edit scripts)
+                for st in ["norep", "mutref", "nofinish"]:
+                    fw.append(gen.adapter_line(a, b, script, st))
+                    for k in range(0, 3):
+                        fw.append(gen.adapter_line(a, b, script, st, fail=k))
+                    ctx.count("adapter:replace-event-with-empty-side")
     C.evaluate(ctx, "adapter-forwarding", fw, rel)
 
 
@@ -582,7 +597,7 @@ SPECS["C08"] = dict(
     relevant=lambda comp, kv: {"no_panic", "no_error", "abort", "finish_last", "nofinish_no_fin", "no_rep",
                                "forwards_unchanged", "ops_exact", "alternating", "twice_same"},
     run=run_C08,
-    generators="raw component over 3 algorithms x 10 hook stacks (recording hook, &mut, NoFinishHook, Replace over a hook "
+    generators="raw component over 3 algorithms x 10 hook stacks (plus a hook without its own replace called directly in the adapter component; recording hook, &mut, NoFinishHook, Replace over a hook "
                "with / without its own replace, Replace over NoFinishHook, Compact, Compact+Replace, Replace over Compact, "
                "one Replace adapter used for the same diff twice) on every binary pair up to length 3/4 and "
                "random pairs up to 25, without deadline and with the virtual clock expiring at probe 0, 1 and 2: the unfailed "
@@ -869,6 +884,19 @@ def run_C13(ctx):
         lines.append("iter ops=%s old=%s new=%s" % (gen.fmt_calls(sub), gen.fmt_list(o), gen.fmt_list(nw)))
         ctx.count("iter:zero-length-ops-in-a-row")
     C.evaluate(ctx, "iter", lines, rel, nontrivial=lambda comp, kv, impl: "changes=-" not in impl)
+    # the entry point TextDiff::iter_changes(op): per-op expansion through the text diff must agree with whole-diff
+    # iteration (clause perop_same of the textdiff component; replacements with more new than old lines included)
+    cases = []
+    for o, n in text_pairs(ctx, tiered(ctx, 150, 1500), invalid=False):
+        cases.append((ctx.rng.choice(TOKS_DIFF), ctx.rng.choice(ALGS), ctx.rng.choice(["str", "bytes"]), None, "-", o, n))
+        ctx.count("textdiff:iter-changes-entry")
+    for k in range(1, 6):
+        for j in range(1, 6):
+            o = b"a\n" + b"".join(b"o%d\n" % i for i in range(k)) + b"z\n"
+            n = b"a\n" + b"".join(b"n%d\n" % i for i in range(j)) + b"z\n"
+            cases.append(("lines", ctx.rng.choice(ALGS), "str", None, "-", o, n))
+            ctx.count("textdiff:replace-k-lines-by-j-lines")
+    C.evaluate(ctx, "textdiff-iter-changes", textdiff_lines(ctx, cases), rel, nontrivial=nontrivial_text)
 
 
 SPECS["C13"] = dict(
@@ -884,7 +912,7 @@ SPECS["C13"] = dict(
              "differential testing over all four op kinds x offsets x lengths and random op lists, not a proof about the Rust source.",
         technique="Coq proof of model (state machine = declarative spec) + model/implementation correspondence + verified checker on implementation output",
     ),
-    relevant=lambda comp, kv: {"no_panic", "iter_spec", "slices_spec", "recap_id", "all_changes_concat"},
+    relevant=lambda comp, kv: {"no_panic", "iter_spec", "slices_spec", "recap_id", "all_changes_concat", "perop_same"},
     run=run_C13,
     generators="iter component: all four op kinds x offsets 0..3 on both sides x lengths 0..3 over sequences whose old "
                "and new values are disjoint, plus random op lists over random sequences: iter_changes, iter_slices, "
